@@ -53,7 +53,9 @@ def write_evidence(pid, tier, seed, mod, stats, wall, violations, extra=None):
         "inconclusive": dict(sorted(stats.inconclusive.items())),
         "notes": stats.notes[:60],
     }
-    if stats.exhaustive is not None:
+    if getattr(mod, "ALL_EXHAUSTIVE", False) and stats.exhaustive is not None:
+        # only checks whose whole plan is an enumeration of a finite space claim exhaustiveness;
+        # the others describe their enumerated part in "exhaustive_part"
         cov["exhaustive"] = bool(stats.exhaustive)
     if extra:
         cov.update(extra)
